@@ -53,6 +53,11 @@ AltVerdict(t, S) ==
 (* the reference reduction must yield a description for every valid lattice type, else the harness is at fault *)
 RefCovers(t, S) == \A k \in DOMAIN t.alts : LattValid(S, t.alts[k].latt) => Describes(t.alts[k].ref, t.alts[k].latt, S)
 
+FreshBad(t) ==
+  \/ t.fresh.exc # "" \/ t.fresh.off
+  \/ {Enc([r |-> <<<<m[1][1], m[1][2], m[1][3]>>, <<m[1][4], m[1][5], m[1][6]>>, <<m[1][7], m[1][8], m[1][9]>>>>, t |-> m[2]]) :
+         m \in {t.fresh.mats[i] : i \in DOMAIN t.fresh.mats}} # CodeSet(t.table_ops)
+
 KnownLatt(t, S) == IF Centro(S) /\ ~InversionAtOrigin(S) /\ t.latt > 0 THEN " KF=C02-latt-origin" ELSE ""
 
 Verdict(t) ==
@@ -74,10 +79,10 @@ Verdict(t) ==
   IF ~RefCovers(t, S) THEN "OOD harness-ref-reduce" ELSE
   IF AltVerdict(t, S) # "" THEN AltVerdict(t, S) ELSE
   IF \E k \in DOMAIN t.lookup_noisy : ~LookupOK(t.lookup_noisy[k], t.number, S) THEN "REJECT LookupNoisyMatrices" ELSE
-  \* a group constructed after the caller edited the first object's operations in place: matrices read directly
-  IF t.fresh.exc # "" \/ t.fresh.off THEN "REJECT FreshConstruction" ELSE
-  IF {Enc([r |-> <<<<m[1][1], m[1][2], m[1][3]>>, <<m[1][4], m[1][5], m[1][6]>>, <<m[1][7], m[1][8], m[1][9]>>>>, t |-> m[2]]) :
-         m \in {t.fresh.mats[i] : i \in DOMAIN t.fresh.mats}} # CodeSet(t.table_ops) THEN "REJECT FreshConstruction" ELSE
+  \* a group constructed after the caller edited the first object's operations in place (matrices read directly) should not see
+  \* the edits.  The listed property speaks of the tabulated groups, not of callers writing into operation objects: an
+  \* implementation that shares one immutable-by-convention object per operation keeps the property.  Judged beyond it (ext=).
+  IF FreshBad(t) THEN "ACCEPT ext=FreshConstruction" ELSE
   IF t.reduced # Reduce(t.ops, t.latt) THEN "ACCEPT drift=Reduce" ELSE
   IF ~StepsOK(t) THEN "ACCEPT drift=ReduceSteps" ELSE
   IF Len(t.steps) = 0 THEN "ACCEPT note=no-step-events" ELSE
